@@ -69,6 +69,7 @@ func pickEngine(r *rt.Rand, tier string) (string, bool) {
 }
 
 type writeOpts struct {
+	compactor bool // a client compacting concurrently
 	future   bool // include far-future / huge expected revisions (C04)
 	reads    bool
 	faults   string // "", "err", "uncertain"
@@ -138,6 +139,17 @@ func genWrites(r *rt.Rand, tier string, idx int, o writeOpts) *world.Scenario {
 				}
 			}
 			cl.Ops = append(cl.Ops, op)
+		}
+		sc.Clients = append(sc.Clients, cl)
+	}
+	if o.compactor {
+		class = "writers+concurrent-compaction"
+		var cl world.Client
+		for i := 0; i < 2+r.Intn(5); i++ {
+			cl.Ops = append(cl.Ops, world.Op{K: "compact", Rev: world.Rev{M: "committed", N: -int64(r.Intn(3))}})
+			if r.Chance(0.5) {
+				cl.Ops = append(cl.Ops, world.Op{K: "get", Key: keys[0]})
+			}
 		}
 		sc.Clients = append(sc.Clients, cl)
 	}
@@ -286,8 +298,11 @@ func expectationHolds(op world.Op, revAbs uint64, st KeyState) bool {
 	return false
 }
 
-func checkC01(c *Ctx) {
-	const P = "C01"
+func checkC01(c *Ctx) { checkChain(c, "C01", true) }
+
+// checkChain is the conditional-write oracle (C01); other properties reuse it
+// under their own id for the writes they issue after compaction / fail-over.
+func checkChain(c *Ctx, P string, justify bool) {
 	w, out := c.W, c.Out
 	tl := buildTimeline(w.KV.GT)
 	byRec, byEntry := attribute(w.Recs, w.KV.GT)
@@ -375,7 +390,7 @@ func checkC01(c *Ctx) {
 			}
 		}
 		// (d) justified failure + failure-branch key-value
-		if r.Err == "" && !r.OK && r.Client >= 0 {
+		if justify && r.Err == "" && !r.OK && r.Client >= 0 {
 			sts := tl.StatesDuring(r.Op.Key, r.Inv, r.Ret)
 			always := true
 			for _, st := range sts {
